@@ -14,7 +14,7 @@
 //   * the DSP THREAD, between two Run(k) slices and only while the guest is not inside the handler
 //     (regs.ie == 1), additionally calls the DSP-side entry points directly -- MMIORead/MMIOWrite of
 //     0x0D6, 0x0C2/0x0C0, 0x0D2/0x0D0/0x0CC, 0x0CE, 0x200, and in the modes `dis` / `vec` the writes to
-//     0x0D4 (disable-interrupt bits) and 0x24C (ICU vector of irq 14).  These are the same functions the
+//     0x0D4 (disable-interrupt bits) and 0x24A/0x24C (ICU vector registers of irq 14).  These are the same functions the
 //     guest reaches through the MMIO window; they are made from the thread that executes Run, so from
 //     the library's point of view they are DSP-side accesses.  This is the "polls" half of the DSP
 //     program; it is done natively so that it can be logged without a guest-side log of every poll.
